@@ -62,7 +62,9 @@ NEUTRAL_GROUPS = {"R1": ("C01", "C02", "C05", "C13"), "R2": ("C03", "C04", "C12"
                   # fifth set, written against the functions the round-7 rules and the latest fixes look at
                   "U1": ("C01", "C02", "C03", "C05"), "U2": ("C04", "C06", "C09", "C12", "C14", "C17"),
                   "U3": ("C07", "C08", "C11", "C20"), "U4": ("C09", "C10", "C15", "C16", "C18"),
-                  "U5": ("C02", "C03", "C09", "C13", "C19")}
+                  "U5": ("C02", "C03", "C09", "C13", "C19"),
+                  # sixth set, written against the conditions under which e2fsck writes (the consent rules C13.h-k)
+                  "V1": ("C13", "C02", "C05", "C04", "C08", "C11", "C01"), "V2": ("C13", "C01", "C02", "C05", "C11", "C09")}
 
 
 def corpus(prop):
